@@ -1,5 +1,6 @@
 import FluteModel.Lemmas.SessionFdt
 import FluteModel.Lemmas.SessionEmit
+import FluteModel.Lemmas.SessionEmpty
 /-
   From packet streams to the events one object sees, and the stream-level core of C02 / C16.
 -/
@@ -229,6 +230,49 @@ theorem stream_core (cF cO : Codec) (rc : RxCfg) (s : SessCfg) (o : ObjCfg)
       · exact Or.inr h
       · exact Or.inl h
   · rw [hpall]; exact hdec
+
+/-- the empty object (no block): delivered by its first packet after an FDT instance listing it has been
+    received whole - whatever arrived before (D14 repaired) -/
+theorem stream_core_empty (cF cO : Codec) (rc : RxCfg) (s : SessCfg) (o : ObjCfg)
+    (hto : o.toi ≠ 0) (hE : o.ks.isEmpty = true)
+    (hall : ∀ f, f ∈ s.fdts → f.files.contains o.toi = true)
+    (f : FdtCfg) (hfind : s.fdts.find? (fun x => x.id == f.id) = some f)
+    (hfN : f.ks.isEmpty = false) (hflook : f.ks.size ≤ rc.maxLook)
+    (hfresh : blockDone cF.canDecode f.ks s.fdtP [] 0 = false)
+    (ps1 ps2 : List Pkt)
+    (hgenF : ∀ p, p ∈ ps1 → p.toi = 0 → p.fdtId = f.id → Genuine (fdtObj s f) (toSym p) ∧ p.close = false)
+    (hwhole : AllDec cF (fdtObj s f) (fsyms f.id ps1))
+    (hsome : osyms o ps2 ≠ []) :
+    1 ≤ (observe cF.canDecode cO.canDecode rc s o (ps1 ++ ps2)).completes := by
+  unfold observe
+  rw [eventsFor_append]
+  have hev := fdt_whole_completes cF rc s o f hfind hfN hflook hfresh ps1 hgenF hwhole
+  have hfl : f.files.contains o.toi = true := hall f (List.mem_of_find?_eq_some hfind)
+  rw [hfl] at hev
+  obtain ⟨a, b, hab⟩ := List.append_of_mem hev
+  generalize hE2 : eventsFor cF.canDecode rc s o (fdtState cF.canDecode rc s fdtRx0 ps1) ps2 = E2
+  rw [hab, List.append_assoc, List.cons_append]
+  have hp2 : pktSyms E2 = osyms o ps2 := by
+    rw [← hE2]; exact events_packets cF.canDecode rc s o hto ps2 _
+  have htrue : ∀ l, Ev.fdt l ∈ b ++ E2 → l = true := by
+    intro l hl
+    rcases List.mem_append.mp hl with h | h
+    · exact events_all_true cF.canDecode rc s o hall ps1 fdtRx0 l (by rw [hab]; simp [h])
+    · rw [← hE2] at h; exact events_all_true cF.canDecode rc s o hall ps2 _ l h
+  obtain ⟨fs, rest, h1, h2, h3⟩ := lead_fdts (b ++ E2)
+  rcases h3 with h3 | ⟨q, r, h3⟩
+  · exfalso
+    apply hsome
+    rw [← hp2]
+    have : pktSyms (b ++ E2) = [] := by rw [h1, h3, List.append_nil]; exact pktSyms_fdts fs h2
+    rw [pktSyms_append] at this
+    exact (List.append_eq_nil_iff.mp this).2
+  · rw [h1, h3]
+    apply empty_delivered cO rc o hE a fs r q h2
+    right
+    intro e he
+    obtain ⟨l, rfl⟩ := h2 e he
+    rw [htrue l (by rw [h1]; exact List.mem_append_left _ he)]
 
 /-! ### sub-multisets of the emitted stream -/
 
